@@ -377,6 +377,15 @@ def run(F, rep, tier):
             rep.viol('R9.5', 'builtin|%s|result-side' % nm, 'the result of %s takes its %s from the right operand on some path (%s): which dict\'s default (and map) survives then depends on a run-time condition such as whether the left dict is shared' % (nm, bad[0][1], bad[0][2]), b.loc(bad[0][0]))
         else:
             rep.ok('R9.5', 'builtin %s result' % nm, '%d Seq::Dict result(s), map and default from the left operand' % len(dicts))
+    # unique / set / count_distinct agree because they all identify elements through ObjKey: no `==`-based membership test (contains)
+    for fn_ in ('multi_unique', 'uniqued'):
+        if not F.has_fn(fn_):
+            continue
+        bad_ = [c for c in family_calls(F, fn_) if c.target.rsplit('::', 1)[-1] in ('contains', 'dedup', 'dedup_by', 'dedup_by_key') and 'HashSet' not in c.target and 'HashMap' not in c.target]
+        if bad_:
+            rep.viol('R9.2', '%s|eq-based-membership' % fn_, '%s decides "already seen" with %s (language-level ==) instead of key equality: NaN is not == to itself, so unique(V(nan, nan)) keeps both while set and count_distinct see one' % (fn_, bad_[0].target.rsplit('::', 1)[-1]), bad_[0].loc())
+        else:
+            rep.ok('R9.2', '%s membership' % fn_, 'through keys only')
     # ---------------- R9.7
     rep.rule('R9.7', 'set(xs) is a dictionary of its own: Set::run builds the result from a freshly collected map (every key -> null); it never '
              'returns a Seq::Dict whose map is the argument\'s (the values of a dictionary argument would survive in the "set")')
